@@ -20,7 +20,8 @@
                         timers within {next interface check};
      bounded_by_need :  forall t0 h, btimes_ok t0 h = true -> chk_C20 t0 h (run PCode t0 h) = true.  *)
 From Coq Require Import List NArith Bool.
-From Mdns Require Import Bytes ParamsHostres HostresBase BoundedModel BoundedSpec BoundedProofs BoundedWitness.
+From Mdns Require Import Bytes ParamsHostres HostresBase BoundedModel BoundedSpec BoundedProofs BoundedWitness
+                         BoundedCountProofs BoundedTimerProofs.
 Import ListNotations.
 Open Scope N_scope.
 
@@ -99,7 +100,80 @@ Theorem C20_cache_bounded_by_need_outside_known : forall t0 h,
   chk_cache t0 h (run PCode t0 h) = true.
 Proof. exact cache_within_need_when_no_excess. Qed.
 
-(* the rule PNeed (partial; missing: a count bound over histories): it never stores a
+(* ---- the counting bound (bounded_by_need for the cache, proved) ---- *)
+(* deliveries_of pol t0 h = the deliveries (time, interface, record) of history h that the run under
+   rule `pol` accounts its cache to: under PNeed exactly those that an open browse / resolver needed
+   at the moment they arrived (`needed`, evaluated on the cache as it then was); under PCode every
+   delivery.  live_count k T D = how many of D are of record kind k with TTL (0 counted as 1 s) not
+   run out at time T.
+   For every history with non-decreasing times, under either rule, for each of the five record
+   kinds: the counter of the state after the history is at most the number of logged deliveries of
+   that kind still within their TTL at the last iteration ... *)
+Theorem C20_count_bound_state : forall pol t0 h k,
+  btimes_ok t0 h = true -> k <> KNone ->
+  count (get_map k (b_cache (state_after pol (b_init t0) h)))
+  <= live_count k (blast_time t0 h) (deliveries_of pol t0 h).
+Proof. exact count_bound_state. Qed.
+
+(* ... and every get_metrics answer given in an iteration i (h1 = the iterations before) has
+   cached-ptr / -srv / -txt / -addr / -nsec at most the number of logged deliveries of that kind, up
+   to and including iteration i, whose TTL had not run out at the previous iteration.
+   With pol = PNeed this is bounded_by_need for the five record counters: at most the deliveries
+   needed by an open search within their TTL, whatever else was received and however long the
+   daemon runs.  With pol = PCode it is the bound of the code as it is: traffic within TTL. *)
+Theorem C20_count_bound_samples : forall pol t0 h1 i h2 smp,
+  btimes_ok t0 (h1 ++ i :: h2) = true ->
+  In smp (snd (step pol (state_after pol (b_init t0) h1) i)) ->
+  sample_within (blast_time t0 h1) (deliveries_of pol t0 (h1 ++ [i])) smp.
+Proof. exact count_bound_samples. Qed.
+
+(* under PCode the log of a message is simply all its records *)
+Theorem C20_log_of_code_rule : forall now fu ifx q res rs acc,
+  msg_log PCode now fu ifx q res rs acc = map (fun r => (now, ifx, r)) rs.
+Proof. exact msg_log_PCode. Qed.
+
+Example C20_count_bound_example :
+  map (fun d => br_ty (snd d)) (deliveries_of PNeed t0 w_legit) = [12; 33; 16; 1]
+  /\ map (fun k => live_count k 1000010 (deliveries_of PNeed t0 (firstn 3 w_legit))) [KPtr; KSrv; KTxt; KAddr; KNsec]
+     = [1; 1; 1; 1; 0]
+  /\ deliveries_of PNeed t0 w_unneeded = []
+  /\ length (deliveries_of PCode t0 w_unneeded) = 3%nat.
+Proof. exact w_count_ok. Qed.
+
+(* ---- the timer heap: when entries leave (the need-proportional count bound is refuted above;
+   a count bound by deliveries within TTL + searches is not proved) ---- *)
+(* for every state and iteration, either rule: the heap afterwards is the old heap plus what this
+   iteration's responses pushed, restricted to times > now, followed by what the rest of the
+   iteration pushed.  Entries leave only by being popped, and every entry whose time has come is. *)
+Theorem C20_timers_step_shape : forall pol s i,
+  exists pushed_by_responses pushed_later,
+    b_timers (fst (step pol s i))
+    = filter (fun v => bi_now i <? v) (b_timers s ++ pushed_by_responses) ++ pushed_later.
+Proof. exact timers_step_shape. Qed.
+
+Theorem C20_timers_kept_are_future : forall pol s i,
+  exists kept pushed_later,
+    b_timers (fst (step pol s i)) = kept ++ pushed_later /\ Forall (fun v => bi_now i < v) kept
+    /\ (forall v, In v (b_timers s) -> bi_now i < v -> In v kept)
+    /\ (forall v, In v (b_timers s) -> v <= bi_now i -> ~ In v kept).
+Proof. exact timers_kept_are_future. Qed.
+
+(* nothing is pushed without work: no response, no call, no retransmission due, no browsed type,
+   interface check disabled or not yet due -> the iteration only pops *)
+Theorem C20_timers_idle_step : forall pol s i,
+  bi_msgs i = [] -> bi_calls i = [] -> b_queriers s = [] ->
+  Forall (fun x => hp_rerun_due (bi_now i) (fst x) = false) (b_retr s) ->
+  (b_ip_interval s = 0 \/ (b_next_ip s <> 0 /\ bi_now i < b_next_ip s)) ->
+  b_timers (fst (step pol s i)) = filter (fun v => bi_now i <? v) (b_timers s).
+Proof. exact timers_idle_step. Qed.
+
+Example C20_timers_idle_example :
+  let s := state_after PCode (b_init t0) w_stale in
+  b_queriers s = [] /\ b_retr s = [] /\ b_ip_interval s = 0 /\ b_timers s = [2000000]
+  /\ b_timers (fst (step PCode s w_idle_iter)) = [2000000].
+Proof. exact w_idle_ok. Qed.
+
+(* the rule PNeed, step level: it never stores a
    record that is not needed when it arrives - cache counters, subtype map and timers
    untouched - and treats a needed record exactly as the code does.  So the PCode and PNeed runs
    of a history differ only through records that no active search needed at arrival
@@ -149,6 +223,14 @@ Print Assumptions C20_bounded_by_need_refuted.
 Print Assumptions C20_timers_grow_with_traffic_refuted.
 Print Assumptions C20_no_excess_runs_agree.
 Print Assumptions C20_cache_bounded_by_need_outside_known.
+Print Assumptions C20_count_bound_state.
+Print Assumptions C20_count_bound_samples.
+Print Assumptions C20_log_of_code_rule.
+Print Assumptions C20_count_bound_example.
+Print Assumptions C20_timers_step_shape.
+Print Assumptions C20_timers_kept_are_future.
+Print Assumptions C20_timers_idle_step.
+Print Assumptions C20_timers_idle_example.
 Print Assumptions C20_unneeded_never_cached_partial.
 Print Assumptions C20_need_rule_agrees_when_needed_partial.
 Print Assumptions C20_example.
